@@ -47,6 +47,14 @@ VARIANTS = {
     "f_ne": ((2, 16), ("header.stationId", "!=", 1001), 1000, None, (("stationId", "desc"),)),
     "f_type": ((2, 16), ("cam.camParameters.basicContainer.stationType", "==", 5), None, 1, (("stationId", "asc"),)),
     "f_cam": ((2,), ("cam.camParameters.basicContainer.stationType", "==", 0), 0, None, None),
+    # two-key orders over a pool whose objects tie on the first key (camA/camB: station 1001) AND whose keys disagree
+    # (camC: highest station, lowest generationDeltaTime); judged by the same oracle as C13 (R.order_ok)
+    "o2_aa": ((2, 16), None, None, None, (("stationId", "asc"), ("generationDeltaTime", "asc"))),
+    "o2_dd": ((2, 16), None, None, None, (("stationId", "desc"), ("generationDeltaTime", "desc"))),
+    "o2_ad": ((2, 16), None, None, None, (("stationId", "asc"), ("generationDeltaTime", "desc"))),
+    "o2_da": ((2, 16), None, None, None, (("stationId", "desc"), ("generationDeltaTime", "asc"))),
+    # first key present in VAMs only (speedValue is inside the CHOICE tuple of a CAM): CAMs lack it
+    "o2_miss": ((2, 16), None, None, None, (("speedValue", "asc"), ("stationId", "desc"))),
 }
 # parameter lattice of the validation part: name -> (valid value, invalid values)
 BADVALS = {"type": [(99,)], "priority": [256, -1], "interval": [-1, 4398046511104], "multiplicity": [256, -1]}
@@ -401,10 +409,14 @@ def parts(tier):
         name="filters_order", setup=base + (("regc", A), ("regc", B)), max_subs=2, max_adds=4 if th else 3, depth=6 if th else 5,
         alphabet=[("sub", A, "f_ne"), ("sub", A, "f_type"), ("sub", A, "f_cam"), ("sub", B, "all"), ("sub", B, "m2"),
                   ("add", "camA"), ("add", "camC"), ("add", "vamA"), ("attend",), ("adv", 1), ("unsub", A, 0)])
+    order2 = dict(
+        name="two_key_order", setup=base + (("regc", A),), max_subs=2, max_adds=4 if th else 3, depth=6 if th else 5,
+        alphabet=[("sub", A, "o2_aa"), ("sub", A, "o2_dd"), ("sub", A, "o2_ad"), ("sub", A, "o2_da"), ("sub", A, "o2_miss"),
+                  ("add", "camA"), ("add", "camB"), ("add", "camC"), ("add", "vamA"), ("add", "vamB"), ("attend",)])
     validation = dict(
         name="validation", setup=base + (("add", "camA"),), max_subs=2, max_adds=1, depth=4 if th else 3,
         alphabet=[("regc", A), ("deregc", A), ("attend",), ("adv", 1)] + [("sub", A, v) for v in VALIDATION])
-    return [cadence, isolation, filters, validation]
+    return [cadence, isolation, filters, order2, validation]
 
 
 def _mk(name, setup, alphabet, max_subs, max_adds, seed):
